@@ -342,6 +342,14 @@ def _is_unsat(interp, args, kwargs, node):
     return PredV(("not", ("sat", qid)))
 
 
+@ext("pysmt.shortcuts.simplify")
+def _simplify(interp, args, kwargs, node):
+    """pysmt's simplifier: a formula equivalent to the argument.  What the rules may use of it: if the result *is* the
+    constant false (true), the argument is unsatisfiable (valid) - not the other way round (the simplifier is syntactic)."""
+    f = as_formula(interp, args[0], node)
+    return Sym(("simplified", ("f", f)), "fnode")
+
+
 @ext("pysmt.shortcuts.is_valid")
 def _is_valid(interp, args, kwargs, node):
     qid = oneshot(interp, F.mk_not(as_formula(interp, args[0], node)), node, "is_valid")
@@ -1469,6 +1477,8 @@ def call_method(interp, obj, name, args, kwargs, node):
         return elem_method(interp, obj, name, args, kwargs, node)
     if isinstance(obj, FormulaV):
         return fnode_method(interp, obj, name, args, kwargs, node)
+    if isinstance(obj, Sym) and isinstance(obj.label, tuple) and obj.label[:1] == ("simplified",) and name in ("is_false", "is_true") and not args:
+        return PredV(("simplifies-" + name[3:], obj.label[1]))
     if isinstance(obj, (Sym, NameV)):
         if name in ("lower", "upper", "strip", "replace", "translate"):
             return Sym((name, desc(obj), tuple(desc(a) for a in args)), "str")
